@@ -140,6 +140,16 @@ def _drive(args):
                     bad['DE' + b_] = 'ok'
                 isoc.do_dumps(bad, codec, bc, bool(tid & 1))
         m = isoc.gen_message(r, bc, alpha, maxbits=r.choice((3, 8, 20, 40)))
+        if tid % 6 == 5:
+            # the LAST element of the message ends in a line feed / carriage return (text) or in x0A / x0D (chip data):
+            # a hexadecimal-bitmap message is printable, but it is not a line of text
+            des = sorted((int(k[2:]) for k in m if k.startswith('DE') and k[2:].isdigit()), reverse=True)
+            for b_ in des[:1]:
+                f_, v_ = bc[str(b_)], m['DE%d' % b_]
+                if isinstance(v_, bytes) and v_:
+                    m['DE%d' % b_] = v_[:-1] + (b'\n', b'\r')[tid % 2]
+                elif isinstance(v_, str) and v_ and not f_.get('field_processor') and not f_.get('field_python_type'):
+                    m['DE%d' % b_] = v_[:-1] + ('\n', '\r')[tid % 2]
         out.append(isocheck.roundtrip_trace(tid, m, bc, codec, bool(tid & 1), 'random well-formed message'))
     return out
 
@@ -154,7 +164,7 @@ def run(rep, wd, tier, seed):
     for codec in isocheck.CODECS_QUICK:
         jobs.append((seed, ('pkg',), codec, 'sweep', tier, 0))
     nrand = 2500 if tier == 'thorough' else 150
-    cfgs = [('pkg',), ('pkgvar', 0), ('pkgvar', 1), ('pkgshuf', seed % 3)] + [('gen', seed * 100 + i) for i in range(6 if tier == 'thorough' else 2)]
+    cfgs = [('pkg',), ('pkgvar', 0), ('pkgvar', 1), ('pkgshuf', seed % 3), ('pkgstr',)] + [('gen', seed * 100 + i) for i in range(6 if tier == 'thorough' else 2)]
     for cfgspec in cfgs:
         for codec in ((tuple(codecs) + (isocheck.CODECS_EXTRA if tier == 'quick' else ())) if cfgspec[0] == 'pkg' else isocheck.CODECS_QUICK):
             n = nrand if codec in isocheck.CODECS_QUICK else max(40, nrand // 10)
